@@ -18,9 +18,10 @@ Equal chain entries reuse the SAME MDP object (optionally with its cached tabula
 
 Input representations (case["repr"], all optional): state/action LABELS (ints, strings whose sorted
 order differs from the index order, tuples, falsy values "" () 0, None as an action and a state label), next-state distributions as
-DictDistribution / deterministic / uniform objects, action containers list vs tuple (persistent
+DictDistribution / deterministic / uniform objects, action containers tuple / list / frozenset / set /
+dict keys view / generator (persistent
 per-state objects) or ONE shared list object for all states (QuickTabularMDP(actions=[...])), initial
-distribution as object / callable / initial_state=, discount and margin as int, heuristic returning
+distribution as object / callable / initial_state=, discount and margin as int (discount also np.float64), heuristic returning
 ints; planner options seed=None, no event listener, max_trial_length, tiny iteration caps.
 Everything is reported back in the generator's integer ids.
 """
@@ -41,7 +42,7 @@ def labels(scheme, n, nA):
     return list(range(n)), list(range(nA))
 
 
-def build_labeled(mc, rp):
+def build_labeled(mc, rp, randomize=True):
     """QuickTabularMDP from a gen_mdp case through the public constructor, in the requested representation"""
     from msdm.core.mdp.quickmdp import QuickTabularMDP
     from msdm.core.distributions import DictDistribution
@@ -68,8 +69,15 @@ def build_labeled(mc, rp):
     for k, r in mc["reward"].items():
         s, a, ns = map(int, k.split(","))
         rew[(sl[s], al[a], sl[ns])] = fl(r)
-    cont = tuple if rp.get("actions_tuple", True) else list
-    actions = {sl[s]: cont(al[a] for a in mc["actions"][s]) for s in range(n)}   # persistent per-state objects
+    # container type of mdp.actions(s): tuple / list / frozenset / set / dict keys view (persistent per-state
+    # objects), or a fresh generator per call (only with randomize_action_order: the planner keeps the
+    # object it got as the state's action order when it does not shuffle, and a generator can be read once)
+    form = rp.get("actions_form") or ("tuple" if rp.get("actions_tuple", True) else "list")
+    if form == "generator" and not randomize:
+        form = "frozenset"
+    mk = {"tuple": tuple, "list": list, "frozenset": frozenset, "set": set,
+          "dict_keys": lambda it: dict.fromkeys(it).keys(), "generator": tuple}[form]
+    actions = {sl[s]: mk(al[a] for a in mc["actions"][s]) for s in range(n)}   # persistent per-state objects
     shared = None
     if rp.get("actions_shared") and all(mc["actions"][s] == mc["actions"][0] for s in range(n)):
         shared = [al[a] for a in mc["actions"][0]]     # ONE list object handed out for every state
@@ -87,9 +95,11 @@ def build_labeled(mc, rp):
     mdp = QuickTabularMDP(
         next_state_dist=lambda s, a: trans[(s, a)],
         reward=lambda s, a, ns: rew.get((s, a, ns), (0 if rp.get("int_numbers") else 0.0)),
-        actions=(shared if shared is not None else (lambda s: actions[s])),
+        actions=(shared if shared is not None else
+                 ((lambda s: (a for a in actions[s])) if form == "generator" else (lambda s: actions[s]))),
         is_absorbing=lambda s: absorbing[s],
-        discount_rate=(int(g) if rp.get("int_numbers") and g.denominator == 1 else float(g)),
+        discount_rate=(int(g) if rp.get("int_numbers") and g.denominator == 1 else
+                       (__import__("numpy").float64(float(g)) if rp.get("np_discount") else float(g))),
         **kw)
     return mdp, sl, al
 
@@ -206,7 +216,7 @@ def one(case, pl):
         if prev is not None:
             mdp, sl, al = prev[1:]
         else:
-            mdp, sl, al = build_labeled(mc, rp)
+            mdp, sl, al = build_labeled(mc, rp, bool(case["randomize"]))
             built.append((mc, mdp, sl, al))
             if rp.get("touch_views"):          # a base object whose cached tabular views were used already
                 _ = (mdp.state_list, mdp.action_list, mdp.transition_matrix, mdp.absorbing_state_vec)
